@@ -19,6 +19,11 @@ pub fn history_rules(prog: &Program, trace: &[Ev]) -> Vec<Verdict>
         match ev
         {
             Ev::Runner(k, e) if *k == crate::obs::RK_DISCARD && !storage_fault => push(&mut out, "C02", "h-postponed-discarded", &["C01", "C09", "C11"], pos, format!("a postponed command for system entity {e:#x} was discarded at the end of a tree")),
+            Ev::Bystander(m) =>
+            {
+                if m.starts_with("C10") { push(&mut out, "C10", "h-other-world-affected", &["C11"], pos, m.clone()); }
+                else { push(&mut out, "C01", "h-other-world-affected", &["C11"], pos, m.clone()); }
+            }
             Ev::Panic(m) => push(&mut out, "C18", "h-panic", &["C02", "C03", "C07", "C10", "C11", "C12"], pos, format!("panic: {m}")),
             Ev::Probe { uid, s } if !s.is_empty() => push(&mut out, "C04", "h-probe-saw-data", &[], pos, format!("probe {uid:#x} observed {s:?}")),
             Ev::Body { inst, n, cap, s, chg } =>
